@@ -14,58 +14,77 @@ func pt(kind string, obj any) {
 	}
 }
 
+// res reports the value an operation returned (for loop detection) and passes it through.
+func res[T any](v T, h func(T) uint64) T {
+	if x := sched.Cur(); x != nil {
+		x.NoteResult(h(v))
+	}
+	return v
+}
+
+func hb(b bool) uint64 {
+	if b {
+		return 1
+	}
+	return 0
+}
+func h32(v int32) uint64   { return uint64(uint32(v)) }
+func h64(v int64) uint64   { return uint64(v) }
+func hu32(v uint32) uint64 { return uint64(v) }
+func hu64(v uint64) uint64 { return v }
+
 type Bool struct{ v atomic.Bool }
 
-func (b *Bool) Load() bool       { pt("Load", b); return b.v.Load() }
+func (b *Bool) Load() bool       { pt("Load", b); return res(b.v.Load(), hb) }
 func (b *Bool) Store(x bool)     { pt("Store", b); b.v.Store(x) }
-func (b *Bool) Swap(x bool) bool { pt("Swap", b); return b.v.Swap(x) }
+func (b *Bool) Swap(x bool) bool { pt("Swap", b); return res(b.v.Swap(x), hb) }
 func (b *Bool) CompareAndSwap(o, n bool) bool {
 	pt("CompareAndSwap", b)
-	return b.v.CompareAndSwap(o, n)
+	return res(b.v.CompareAndSwap(o, n), hb)
 }
 
 type Int32 struct{ v atomic.Int32 }
 
-func (b *Int32) Load() int32        { pt("Load", b); return b.v.Load() }
+func (b *Int32) Load() int32        { pt("Load", b); return res(b.v.Load(), h32) }
 func (b *Int32) Store(x int32)      { pt("Store", b); b.v.Store(x) }
-func (b *Int32) Swap(x int32) int32 { pt("Swap", b); return b.v.Swap(x) }
-func (b *Int32) Add(x int32) int32  { pt("Add", b); return b.v.Add(x) }
+func (b *Int32) Swap(x int32) int32 { pt("Swap", b); return res(b.v.Swap(x), h32) }
+func (b *Int32) Add(x int32) int32  { pt("Add", b); return res(b.v.Add(x), h32) }
 func (b *Int32) CompareAndSwap(o, n int32) bool {
 	pt("CompareAndSwap", b)
-	return b.v.CompareAndSwap(o, n)
+	return res(b.v.CompareAndSwap(o, n), hb)
 }
 
 type Int64 struct{ v atomic.Int64 }
 
-func (b *Int64) Load() int64        { pt("Load", b); return b.v.Load() }
+func (b *Int64) Load() int64        { pt("Load", b); return res(b.v.Load(), h64) }
 func (b *Int64) Store(x int64)      { pt("Store", b); b.v.Store(x) }
-func (b *Int64) Swap(x int64) int64 { pt("Swap", b); return b.v.Swap(x) }
-func (b *Int64) Add(x int64) int64  { pt("Add", b); return b.v.Add(x) }
+func (b *Int64) Swap(x int64) int64 { pt("Swap", b); return res(b.v.Swap(x), h64) }
+func (b *Int64) Add(x int64) int64  { pt("Add", b); return res(b.v.Add(x), h64) }
 func (b *Int64) CompareAndSwap(o, n int64) bool {
 	pt("CompareAndSwap", b)
-	return b.v.CompareAndSwap(o, n)
+	return res(b.v.CompareAndSwap(o, n), hb)
 }
 
 type Uint32 struct{ v atomic.Uint32 }
 
-func (b *Uint32) Load() uint32         { pt("Load", b); return b.v.Load() }
+func (b *Uint32) Load() uint32         { pt("Load", b); return res(b.v.Load(), hu32) }
 func (b *Uint32) Store(x uint32)       { pt("Store", b); b.v.Store(x) }
-func (b *Uint32) Swap(x uint32) uint32 { pt("Swap", b); return b.v.Swap(x) }
-func (b *Uint32) Add(x uint32) uint32  { pt("Add", b); return b.v.Add(x) }
+func (b *Uint32) Swap(x uint32) uint32 { pt("Swap", b); return res(b.v.Swap(x), hu32) }
+func (b *Uint32) Add(x uint32) uint32  { pt("Add", b); return res(b.v.Add(x), hu32) }
 func (b *Uint32) CompareAndSwap(o, n uint32) bool {
 	pt("CompareAndSwap", b)
-	return b.v.CompareAndSwap(o, n)
+	return res(b.v.CompareAndSwap(o, n), hb)
 }
 
 type Uint64 struct{ v atomic.Uint64 }
 
-func (b *Uint64) Load() uint64         { pt("Load", b); return b.v.Load() }
+func (b *Uint64) Load() uint64         { pt("Load", b); return res(b.v.Load(), hu64) }
 func (b *Uint64) Store(x uint64)       { pt("Store", b); b.v.Store(x) }
-func (b *Uint64) Swap(x uint64) uint64 { pt("Swap", b); return b.v.Swap(x) }
-func (b *Uint64) Add(x uint64) uint64  { pt("Add", b); return b.v.Add(x) }
+func (b *Uint64) Swap(x uint64) uint64 { pt("Swap", b); return res(b.v.Swap(x), hu64) }
+func (b *Uint64) Add(x uint64) uint64  { pt("Add", b); return res(b.v.Add(x), hu64) }
 func (b *Uint64) CompareAndSwap(o, n uint64) bool {
 	pt("CompareAndSwap", b)
-	return b.v.CompareAndSwap(o, n)
+	return res(b.v.CompareAndSwap(o, n), hb)
 }
 
 type Value struct{ v atomic.Value }
@@ -75,7 +94,7 @@ func (b *Value) Store(x any)    { pt("Store", b); b.v.Store(x) }
 func (b *Value) Swap(x any) any { pt("Swap", b); return b.v.Swap(x) }
 func (b *Value) CompareAndSwap(o, n any) bool {
 	pt("CompareAndSwap", b)
-	return b.v.CompareAndSwap(o, n)
+	return res(b.v.CompareAndSwap(o, n), hb)
 }
 
 type Pointer[T any] struct{ v atomic.Pointer[T] }
@@ -85,40 +104,52 @@ func (b *Pointer[T]) Store(x *T)   { pt("Store", b); b.v.Store(x) }
 func (b *Pointer[T]) Swap(x *T) *T { pt("Swap", b); return b.v.Swap(x) }
 func (b *Pointer[T]) CompareAndSwap(o, n *T) bool {
 	pt("CompareAndSwap", b)
-	return b.v.CompareAndSwap(o, n)
+	return res(b.v.CompareAndSwap(o, n), hb)
 }
 
-func AddInt32(a *int32, d int32) int32      { pt("AddInt32", a); return atomic.AddInt32(a, d) }
-func AddInt64(a *int64, d int64) int64      { pt("AddInt64", a); return atomic.AddInt64(a, d) }
-func AddUint32(a *uint32, d uint32) uint32  { pt("AddUint32", a); return atomic.AddUint32(a, d) }
-func AddUint64(a *uint64, d uint64) uint64  { pt("AddUint64", a); return atomic.AddUint64(a, d) }
-func LoadInt32(a *int32) int32              { pt("LoadInt32", a); return atomic.LoadInt32(a) }
-func LoadInt64(a *int64) int64              { pt("LoadInt64", a); return atomic.LoadInt64(a) }
-func LoadUint32(a *uint32) uint32           { pt("LoadUint32", a); return atomic.LoadUint32(a) }
-func LoadUint64(a *uint64) uint64           { pt("LoadUint64", a); return atomic.LoadUint64(a) }
-func StoreInt32(a *int32, v int32)          { pt("StoreInt32", a); atomic.StoreInt32(a, v) }
-func StoreInt64(a *int64, v int64)          { pt("StoreInt64", a); atomic.StoreInt64(a, v) }
-func StoreUint32(a *uint32, v uint32)       { pt("StoreUint32", a); atomic.StoreUint32(a, v) }
-func StoreUint64(a *uint64, v uint64)       { pt("StoreUint64", a); atomic.StoreUint64(a, v) }
-func SwapInt32(a *int32, v int32) int32     { pt("SwapInt32", a); return atomic.SwapInt32(a, v) }
-func SwapInt64(a *int64, v int64) int64     { pt("SwapInt64", a); return atomic.SwapInt64(a, v) }
-func SwapUint32(a *uint32, v uint32) uint32 { pt("SwapUint32", a); return atomic.SwapUint32(a, v) }
-func SwapUint64(a *uint64, v uint64) uint64 { pt("SwapUint64", a); return atomic.SwapUint64(a, v) }
+func AddInt32(a *int32, d int32) int32 { pt("AddInt32", a); return res(atomic.AddInt32(a, d), h32) }
+func AddInt64(a *int64, d int64) int64 { pt("AddInt64", a); return res(atomic.AddInt64(a, d), h64) }
+func AddUint32(a *uint32, d uint32) uint32 {
+	pt("AddUint32", a)
+	return res(atomic.AddUint32(a, d), hu32)
+}
+func AddUint64(a *uint64, d uint64) uint64 {
+	pt("AddUint64", a)
+	return res(atomic.AddUint64(a, d), hu64)
+}
+func LoadInt32(a *int32) int32          { pt("LoadInt32", a); return res(atomic.LoadInt32(a), h32) }
+func LoadInt64(a *int64) int64          { pt("LoadInt64", a); return res(atomic.LoadInt64(a), h64) }
+func LoadUint32(a *uint32) uint32       { pt("LoadUint32", a); return res(atomic.LoadUint32(a), hu32) }
+func LoadUint64(a *uint64) uint64       { pt("LoadUint64", a); return res(atomic.LoadUint64(a), hu64) }
+func StoreInt32(a *int32, v int32)      { pt("StoreInt32", a); atomic.StoreInt32(a, v) }
+func StoreInt64(a *int64, v int64)      { pt("StoreInt64", a); atomic.StoreInt64(a, v) }
+func StoreUint32(a *uint32, v uint32)   { pt("StoreUint32", a); atomic.StoreUint32(a, v) }
+func StoreUint64(a *uint64, v uint64)   { pt("StoreUint64", a); atomic.StoreUint64(a, v) }
+func SwapInt32(a *int32, v int32) int32 { pt("SwapInt32", a); return res(atomic.SwapInt32(a, v), h32) }
+func SwapInt64(a *int64, v int64) int64 { pt("SwapInt64", a); return res(atomic.SwapInt64(a, v), h64) }
+func SwapUint32(a *uint32, v uint32) uint32 {
+	pt("SwapUint32", a)
+	return res(atomic.SwapUint32(a, v), hu32)
+}
+func SwapUint64(a *uint64, v uint64) uint64 {
+	pt("SwapUint64", a)
+	return res(atomic.SwapUint64(a, v), hu64)
+}
 func CompareAndSwapInt32(a *int32, o, n int32) bool {
 	pt("CompareAndSwapInt32", a)
-	return atomic.CompareAndSwapInt32(a, o, n)
+	return res(atomic.CompareAndSwapInt32(a, o, n), hb)
 }
 func CompareAndSwapInt64(a *int64, o, n int64) bool {
 	pt("CompareAndSwapInt64", a)
-	return atomic.CompareAndSwapInt64(a, o, n)
+	return res(atomic.CompareAndSwapInt64(a, o, n), hb)
 }
 func CompareAndSwapUint32(a *uint32, o, n uint32) bool {
 	pt("CompareAndSwapUint32", a)
-	return atomic.CompareAndSwapUint32(a, o, n)
+	return res(atomic.CompareAndSwapUint32(a, o, n), hb)
 }
 func CompareAndSwapUint64(a *uint64, o, n uint64) bool {
 	pt("CompareAndSwapUint64", a)
-	return atomic.CompareAndSwapUint64(a, o, n)
+	return res(atomic.CompareAndSwapUint64(a, o, n), hb)
 }
 func LoadPointer(a *unsafe.Pointer) unsafe.Pointer {
 	pt("LoadPointer", a)
